@@ -40,6 +40,8 @@ pub struct HistCfg {
   pub scope_in_key: bool,
   /// wall-clock cap for the whole run (seconds)
   pub wall_cap: f64,
+  /// C16: record (program hash, history hash, step digest) of every transition
+  pub collect_digests: bool,
 }
 
 /// Fixed-key hash (no addresses, no random seeds): used for trace digests only.
@@ -101,10 +103,13 @@ pub struct Stats {
   pub in_scope_bottom_up: usize,
   pub replays_checked: usize,
   pub wall_capped: bool,
+  pub digests: Vec<(u64, u64, u64)>,
+  /// a few explored histories written out (the deepest ones met by each worker)
+  pub samples: Vec<Value>,
 }
 
 impl Stats {
-  fn merge(&mut self, o: &Stats) {
+  pub fn merge(&mut self, o: &Stats) {
     self.programs += o.programs; self.states += o.states; self.transitions += o.transitions;
     self.sessions_executed += o.sessions_executed;
     self.max_depth = self.max_depth.max(o.max_depth);
@@ -114,6 +119,8 @@ impl Stats {
     self.builds_returned += o.builds_returned; self.tasks_executed += o.tasks_executed; self.tasks_reused += o.tasks_reused;
     self.probes += o.probes; self.in_scope_bottom_up += o.in_scope_bottom_up; self.replays_checked += o.replays_checked;
     self.wall_capped |= o.wall_capped;
+    self.digests.extend_from_slice(&o.digests);
+    for s in &o.samples { if self.samples.len() < 12 { self.samples.push(s.clone()); } }
   }
 }
 
@@ -339,6 +346,11 @@ pub fn explore_program(prog: &Prog, class: Class, cfg: &HistCfg, stats: &mut Sta
       let last = j.steps.last().unwrap();
       let last_digest = step_digest(last);
       traces.insert(last_digest);
+      if cfg.collect_digests {
+        let mut ph = Fnv::default(); prog.hash(&mut ph);
+        let mut hh = Fnv::default(); path.hash(&mut hh);
+        stats.digests.push((ph.finish(), hh.finish(), last_digest));
+      }
       match &last.outcome {
         Outcome::Returned(_) => {
           stats.builds_returned += 1;
@@ -348,6 +360,10 @@ pub fn explore_program(prog: &Prog, class: Class, cfg: &HistCfg, stats: &mut Sta
         Outcome::Applied => {}
       }
       if let Event::BottomUp { .. } = last.pev.ev { stats.in_scope_bottom_up += 1; }
+      if stats.samples.len() < 2 && path.len() >= cfg.depth.min(4) && last.pev.ev.is_build() && stats.transitions % 97 == 0 {
+        stats.samples.push(json!({"program": prog.short(), "history": path_strings(&path), "last_outcome": format!("{:?}", last.outcome),
+          "tasks_executed_in_last_step": last.log.iter().filter_map(|e| if let crate::world::Ev::Enter(t) = e { Some(format!("T{}", t)) } else { None }).collect::<Vec<_>>() }));
+      }
       let mut blocked = false;
       for f in &j.findings {
         if !is_known(&f.key) { blocked = true; }
